@@ -142,6 +142,7 @@ var ExprTokens = []string{
 	"null", "true", "false", "$a", "$ij.b", "$", ".b", "?.b", ".0", "?.0", "[", "]", "?[", "[:]", "[1,2]", "['a':1]",
 	"+", "-", "*", "/", "%", "<", ">", "<=", ">=", "==", "!=", "and", "or", "not", "?", ":", "?:", "(", ")", ",", "|", "=", "!", "&", "=>",
 	"f(", "f()", "f(1,2)", "length($a)", "G.x", "g", "}", "{", "/}", "@", "#", " ", "\n", "\x00", "\xff", "é", "😀", "in", "if",
+	".", "..", "$a.", "$a..b", "$.", "$ij.", "$ij", "$a.b.", "?.", "$a.0.", "$a?.", "$a[", "$a.b.c.d.e.f",
 }
 
 // ExprCorpus are valid expressions (seeds for prefixes and token edits).
